@@ -136,10 +136,14 @@ def _module_job(job):
         res.add(Obligation(f"{mname}", "undecided", f"corpus module does not compile: {json.dumps(r)[:200]}"))
         return res
     programs = 0
+    job_budget = 420 if tier == "quick" else 1500
     for fi, fn in enumerate(r["Ok"]["functions"]):
         if fn.get("skipped") or not U.in_chunk(m_, fi):
             continue
         name = f"{mname}:{fn['name']}"
+        if time.time() - t0 > job_budget:
+            res.add(Obligation(name, "undecided", f"job time budget ({job_budget} s) exhausted before this program pair"))
+            continue
         if fn.get("gen_panic"):
             vb = Obligation(name + "/crash", "violated", f"code generation / optimiser panicked: {fn['gen_panic'][:300]}")
             vb.finding_key = f"{name} crash"
